@@ -7,12 +7,13 @@ git -C /repo worktree add --detach -q $WT HEAD
 for d in /verif/seeded/C*/*/; do
   key=$(echo $d | sed 's#/verif/seeded/##; s#/$##')
   if grep -q '"obsolete"' $d/meta.json 2>/dev/null; then echo "$key obsolete"; continue; fi
-  ( cd $WT && git checkout -q -- . && git clean -qfd
-    PYTHONPATH=/verif/dsim/shims:. timeout 300 /venv/bin/python $d/demo.py >/dev/null 2>&1; c=$?
+  ( cd $WT && git checkout -q -- . && git clean -qfd -e out
+    mkdir -p out && cp $d/demo.py out/demo.py      # the demos locate tests/fixtures relative to <worktree>/out/
+    PYTHONPATH=/verif/dsim/shims:. timeout 300 /venv/bin/python out/demo.py >/dev/null 2>&1; c=$?
     if ! git apply --whitespace=nowarn $d/patch.diff 2>/dev/null; then echo "$key PATCH-FAILS"; exit; fi
     t="skipped"
     if [ "$1" != "--no-tests" ]; then t=$(/venv/bin/python -m pytest -q -p no:cacheprovider --timeout=900 --continue-on-collection-errors 2>&1 | tail -1 | grep -o "[0-9]* passed\|[0-9]* failed" | tr '\n' ' '); fi
-    PYTHONPATH=/verif/dsim/shims:. timeout 300 /venv/bin/python $d/demo.py >/dev/null 2>&1; m=$?
+    PYTHONPATH=/verif/dsim/shims:. timeout 300 /venv/bin/python out/demo.py >/dev/null 2>&1; m=$?
     echo "$key clean=$c mutant=$m tests=$t $([ $c = 0 ] && [ $m = 1 ] && echo OK || echo STALE)" )
 done
 git -C /repo worktree remove --force $WT
